@@ -71,6 +71,15 @@ def check_live_set(sim: Sim, m: Any, live: list[dict[str, Any]], sb: dict[str, A
         sim.probe("higher_priority_bounds_bind")
         sim.nontrivial = True
     sysb = pm.mk_sysbounds(sb, sim.wall())
+    # first the way the actor's bounds tracker tells the algorithm about (possibly new) system bounds, and what the
+    # actor would then use as the current target; only afterwards the explicit must_return_power=True form
+    m.calculate_target_power(IDS, None, sysb)
+    cur = pm.watts(m.get_target_power(IDS))
+    if cur not in ref["accept"]:
+        sim.violation("matches_reference", {"what": "current target after a bounds-only recalculation differs from the reference"},
+                      f"step {step}: after calculate_target_power(proposal=None) get_target_power() is {cur} W, reference "
+                      f"accepts {sorted(ref['accept'])}; bounds {sb}; live (highest priority first) "
+                      f"{[pm.pstr(p) for p in by_prio]}")
     got = pm.watts(m.calculate_target_power(IDS, None, sysb, must_return_power=True))
     for p in live:
         if p["pref"] is not None and p["pref"] != 0 and sb["xlo"] < p["pref"] < sb["xhi"]:
